@@ -5,7 +5,7 @@
    (Spec/AggSpec.v: NULL / missing / non-numeric inputs skipped, SUM/AVG/MIN/MAX of nothing = NULL, COUNT = 0,
    VAR = sum (x-mu)^2 / n, VARS = .../(n-1), STDDEV(S) = sqrt of them, FIRST/LAST_VALUE keep an explicit NULL). *)
 From Coq Require Import QArith Permutation.
-From SV Require Import Model.Agg Spec.AggSpec Proofs.AggProofs Proofs.AggFront Proofs.AggHaving.
+From SV Require Import Model.Agg Spec.AggSpec Proofs.AggProofs Proofs.AggFront Proofs.AggHaving Proofs.AggFloat.
 
 (* every registered aggregate except STDDEV, for a bare column / nested path (MCol) and for an expression
    argument evaluated per row (MExpr; code after fix d3cad79), for every batch *)
@@ -35,6 +35,50 @@ Print Assumptions C03_welford_stddev.
 Theorem C03_welford_stddevs : forall vs, res_eq (run WStdDevS vs) (spec WStdDevS vs).
 Proof. exact welford_stddevs_correct. Qed.
 Print Assumptions C03_welford_stddevs.
+
+(* the float64 error budget of the variance family (Spec/AggSpec.v fl_slack; the driver compares var / vars /
+   stddev / stddevs with |r - q| <= 2^-30 |q| + 2^-40 + fl_slack).  A second pass around a point c that is not exactly
+   the mean overshoots sum (x-mu)^2 by n (c-mu)^2 - never undershoots - so the rounding of the mean (<= 2^-53 max|x|)
+   enters the two-pass result in second order: two_pass_slack = 2 (2^-52 max|x|)^2.  The one-pass formula
+   sum x^2 - (sum x)^2 / n is the same rational number (the model cannot tell the algorithms apart), but in float64
+   it loses the spread of large-offset values (1e9+1 .. 1e9+4: 0 instead of 1.25), far outside that slack. *)
+Theorem C03_two_pass_shifted_mean : forall l c, l <> [] ->
+  qsum (map (fun x => (x - c) * (x - c)) l) == sqdev l + qnat (length l) * ((c - mean l) * (c - mean l)).
+Proof. exact two_pass_shifted_mean. Qed.
+Print Assumptions C03_two_pass_shifted_mean.
+Theorem C03_two_pass_never_below : forall l c, l <> [] ->
+  sqdev l <= qsum (map (fun x => (x - c) * (x - c)) l).
+Proof. exact two_pass_never_below. Qed.
+Print Assumptions C03_two_pass_never_below.
+Theorem C03_one_pass_same_rational : forall l, l <> [] ->
+  sqdev l == qsum (map (fun x => x * x) l) - qsum l * qsum l / qnat (length l).
+Proof. exact one_pass_same_rational. Qed.
+Print Assumptions C03_one_pass_same_rational.
+(* the slack is never negative, is 0 outside the variance family, slack 0 is the plain comparison, a larger slack only
+   accepts more, and the exactly compared aggregates stay exactly compared *)
+Theorem C03_fl_slack_nonneg : forall f vs, 0 <= fl_slack f vs.
+Proof. exact fl_slack_nonneg. Qed.
+Print Assumptions C03_fl_slack_nonneg.
+Theorem C03_fl_slack_only_variance : forall f vs,
+  match f with AStdDev | AStdDevS | AVar | AVarS | WStdDev | WStdDevS | WVar | WVarS => True | _ => fl_slack f vs = 0 end.
+Proof. exact fl_slack_only_variance. Qed.
+Print Assumptions C03_fl_slack_only_variance.
+Theorem C03_matches_slack_zero : forall ex o r, matches_s ex 0 o r = matches ex o r.
+Proof. exact matches_s_zero. Qed.
+Print Assumptions C03_matches_slack_zero.
+Theorem C03_matches_slack_mono : forall ex s s' o r,
+  s <= s' -> matches_s ex s o r = true -> matches_s ex s' o r = true.
+Proof. exact matches_s_mono. Qed.
+Print Assumptions C03_matches_slack_mono.
+(* non-vacuity: the slack of 1e9+1 .. 1e9+4 is 2 (1000000004 / 2^52)^2 ~ 1e-13, and the one-pass result 0 is rejected
+   for var = 5/4 while a result within the slack is accepted *)
+Example C03_fl_slack_example :
+  let vs := [VInt 1000000001; VInt 1000000002; VInt 1000000003; VInt 1000000004] in
+  (res_eq (spec AVar vs) (RNum (5 # 4))) /\
+  (Qeq (fl_slack AVar vs) (2 * ((1000000004 # 1) * fl_eps) * ((1000000004 # 1) * fl_eps))) /\
+  (matches_s false (fl_slack AVar vs) (OVal (VFlt 0)) (spec AVar vs) = false) /\
+  (matches_s false (fl_slack AVar vs) (OVal (VFlt (5 # 4))) (spec AVar vs) = true).
+Proof. vm_compute. repeat split. Qed.
 
 (* what MIN / MAX of the definition mean *)
 Theorem C03_min_is_least : forall l x,
